@@ -69,7 +69,8 @@ type Sim struct {
 	start    time.Time
 	sticky   int
 	last     string
-	stall    int // permille of scheduler steps at which every parked gate stays parked while time passes
+	stalled  time.Duration // simulated time spent in stalls so far
+	stall    int           // permille of scheduler steps at which every parked gate stays parked while time passes
 	stalls   int
 
 	schedPos int
@@ -98,6 +99,11 @@ type Sim struct {
 
 // Now returns simulated time elapsed since the start of the run.
 func (s *Sim) Now() time.Duration { return s.elapsed + time.Since(s.start) }
+
+// Unstalled is Now minus the simulated time spent in stalls: a clock for
+// liveness bounds that are only meaningful while nothing is held up by the
+// simulator itself.
+func (s *Sim) Unstalled() time.Duration { return s.Now() - s.stalled }
 
 // Step returns the number of scheduler steps taken.
 func (s *Sim) Step() int { return s.step }
@@ -545,6 +551,7 @@ func (s *Sim) Loop(cond func() bool) Stop {
 					d = remaining
 				}
 				s.stalls++
+				s.stalled += d
 				s.Count("fault.stall", 1)
 				s.appendJournal(fmt.Sprintf("sched: stall %v with %d gate(s) parked", d, len(ready)))
 				time.Sleep(d)
